@@ -517,7 +517,7 @@ func r6ProducerBody(c *RuleCtx, fn *ssa.Function, props []string, name string, a
 		if _, isGo := in.(*ssa.Go); isGo {
 			return nil
 		}
-		callee := staticCallee(cs)
+		callee := resolvedCallee(cs) // also a closure held in a (captured) local variable
 		if callee == nil {
 			return nil
 		}
